@@ -49,12 +49,38 @@ class Cap:
 # ---------------------------------------------------------------------------------------------
 # (1) structure
 
+def directed_exactness(dom, cl, minimal, r):
+    """GBP on a junction-tree-structured clique set, potentials on the maximal cliques only, 300 sweeps, against brute-force marginals"""
+    total = 10.0
+    obj = rggen.build_rg(dom, cl, total, convex=False, minimal=minimal)
+    maximal = set(rggen.init_cliques([tuple(c) for c in cl], False))
+    if len({frozenset(x) for x in obj.regions}) != len(obj.regions):
+        return None
+    pots = rggen.gen_pots(r, dom, list(obj.cliques), support=maximal)
+    fp = rggen.pots_float(pots)
+    obj.iters = 300
+    with np.errstate(all='ignore'):
+        mu = obj.belief_propagation(rggen.impl_cv(fp))
+    tab = rggen.table(mu)
+    if rggen.validity(tab, total, 1e-9):
+        return None
+    ex = rggen.exact_tables(dom, pots, tab, Fr(total))
+    e, where = rggen.max_err(ex, tab)
+    if e > 1e-6 * total:
+        return (f'generalized_belief_propagation: clique set {cl} has the running-intersection property, potentials on the maximal cliques only, 300 sweeps, '
+                f'minimal={minimal}: table {list(where[0])} cell {where[1]} is {where[3]!r}, exact marginal {where[2]!r} (total {total})',
+                {str(a): b[1] for a, b in tab.items()})
+    return None
+
+
 def structure_stream(res, drv, tier, seed, viol):
+    directed = {}
     r = rng(seed, 'C16-structure')
     n = 80 if tier == 'quick' else 800
     reqs, meta = [], []
-    for _ in range(n):
-        dom, cl, kind = rggen.gen_case(r, 3000, nmax=7)
+    for i in range(n):
+        # the first tenth of the cases are region graphs with four or more levels (descendants != children, ancestors != parents)
+        dom, cl, kind = rggen.gen_case(r, 3000, nmax=7, kinds=['deep'] if i < max(8, n // 10) else rggen.KINDS)
         for convex in (True, False):
             for minimal in (True, False):
                 rg = rggen.build_rg(dom, cl, 1.0, convex, minimal)
@@ -87,6 +113,13 @@ def structure_stream(res, drv, tier, seed, viol):
         if out['mismatch']:
             viol('correspondence', 'build_graph: ' + '; '.join(out['mismatch'][:4]),
                  {'request': canon, 'impl': q['impl'], 'model': out, 'stream': 'C16.rg_build'}, 'rg:structure')
+            # the structure differs from the transcription: look for a concrete failing input on this very structure
+            if not convex and rggen.has_rip(cl) and not directed.get('found') and directed.get('tried', 0) < 6:
+                directed['tried'] = directed.get('tried', 0) + 1
+                bad = directed_exactness(dom, cl, minimal, rng(seed, 'C16-directed'))
+                if bad:
+                    directed['found'] = True
+                    viol('failing-input', bad[0], {'request': dict(canon, stream='directed'), 'observed': bad[1]}, 'gbp:rip-inexact')
         for o in out['order']:
             name = o.split('[')[0]
             res.count('order differs (same set): ' + name)
@@ -124,8 +157,8 @@ def run_calls(obj, calls_fp, count_sweeps=False):
 
 
 def make_case(r, op, max_cells, scale=None):
-    kinds = {'gbp': ['rip', 'rip', 'chain', 'star', 'nested', 'arbitrary', 'loop', 'dense', 'disjoint', 'sameset', 'fgtree'],
-             'hps': ['arbitrary', 'rip', 'loop', 'dense', 'chain', 'nested', 'sameset', 'fgtree', 'disjoint'],
+    kinds = {'gbp': ['rip', 'rip', 'deep', 'deep', 'chain', 'star', 'nested', 'arbitrary', 'loop', 'dense', 'disjoint', 'sameset', 'fgtree'],
+             'hps': ['arbitrary', 'rip', 'deep', 'loop', 'dense', 'chain', 'nested', 'sameset', 'fgtree', 'disjoint'],
              'lbp': ['fgtree', 'fgtree', 'chain', 'star', 'disjoint', 'loop', 'dense', 'arbitrary', 'nested', 'rip']}[op]
     dom, cl, kind = rggen.gen_case(r, max_cells, kinds=kinds)
     total = r.choice(TOTALS)
@@ -219,7 +252,7 @@ def check_case(res, c, impl, resp, viol):
         if bad:
             property_ok = False
             mm = rggen.max_abs_message(c['obj'])
-            div = not (mm < rggen.DIVERGED)
+            div = rggen.explained_by_message_growth(tab, total, mm)
             viol('failing-input', f'{name} (call {ci}, {k} sweeps): {bad}; largest |message| on the object {mm:.3e}', rp,
                  f'{op}:not-normalised' + (':diverged-messages' if div else ''))
             continue
@@ -300,6 +333,8 @@ def run(res, drv, tier, seed):
     viol = Cap(res)
     structure_stream(res, drv, tier, seed, viol)
     oracle_stream(res, drv, tier, seed, viol)
+    res.extra['oracle_objects_total_assigned_after_construction'] = rggen.RETOTAL['late']
+    res.extra['oracle_objects_total_given_to_constructor'] = rggen.RETOTAL['constructor']
 
 
 def search(res, tier, seed, broken):
